@@ -76,7 +76,7 @@ theorem mem_expiredI {now : Int} {shards : List XShard} {idxs : List XIndex} {nm
       q = ⟨i.iid, i.igid, i.endT, i.dur, true, now, true, heldOf shards i.iid⟩) := by
   unfold expiredI at h
   simp only [List.mem_append, List.mem_map, List.mem_filter, Bool.and_eq_true, Bool.not_eq_true'] at h
-  rcases h with ⟨x, ⟨hx, he, hl⟩, rfl⟩ | ⟨i, ⟨hi, _, he⟩, rfl⟩
+  rcases h with ⟨x, ⟨hx, he, hl⟩, rfl⟩ | ⟨i, ⟨hi, ⟨_, _⟩, he⟩, rfl⟩
   · exact Or.inl ⟨x, hx, he, hl, rfl⟩
   · exact Or.inr ⟨i, hi, he, rfl⟩
 
